@@ -136,6 +136,18 @@ CHECKS["C12"] = dict(
          "rule-level locality (chunk/sentence/paragraph) is bound by trace validation only.",
     ref="4 C12", technique="TLA+ model checking (TLC) + trace validation")
 
+CHECKS["C14"] = dict(
+    text="LintContext::from_lint (three token windows, quote partner index) and the ignore list are specified in "
+         "spec/IgnoreOps.tla; TLC checks HidesIt / OnlyIt / KeepsHiding for all documents of a few tokens "
+         "(misspellings of different widths, words, blanks, quotes), every lint chosen, far prepend/append edits. On "
+         "the real code, sessions ignore random lints, re-lint, prepend/append far text or export+import the list "
+         "(core IgnoredLints and harper-wasm) and re-lint; the stateful trace spec (spec/trace/Trace_Ignore.tla) "
+         "keeps the set of ignored identities and requires that exactly the lints with an ignored identity are hidden.",
+    note="Trusted: TLC; the harness computes a lint's identity (kind, message, suggestions, flagged text, tokens "
+         "within two characters) from Harper's token boundaries; lints that differ from an ignored one only in "
+         "adjacent white space are left to the implementation (two identities, strict and loose).",
+    ref="4 C14", technique="TLA+ model checking (TLC) + stateful trace validation")
+
 NOT_YET = {}
 
 
